@@ -187,7 +187,7 @@ pub fn run(tier: &str) -> i32 {
             let (m1, m2) = ("{\"data\":\"first\"}", "{\"data\":\"second\"}");
             let twice = adapter::core_issue_twice(p, &al.keys[0].sk, &seed_v, m1, f.as_deref(), a.as_deref());
             let orders = adapter::core_issue_orders(p, &al.keys[0].sk, &seed_v, m1, m2, f.as_deref(), a.as_deref());
-            for (t, m) in twice.iter().zip([m1, m1]).chain(orders.iter().zip([m1, m2])) {
+            for (t, m) in twice.iter().zip([m1, m1]).chain(orders.iter().zip([m1, m2, m2])) {
                 all.executions += 1;
                 if let Out::Ok(token) = t {
                     emitted.push(Emitted { case: IssueCase::new(p, Layer::Core, &al.keys[0], seed, m, &f, &a), key_ref: al.keys[0].secret_for_ref.clone(), token: token.clone() });
@@ -195,6 +195,35 @@ pub fn run(tier: &str) -> i32 {
             }
         }
         phases.push(json!({"phase": "core builder reused / other setter orders", "executions": 32}));
+    }
+
+    // phase 5: nonce seeds (found by search with the reference, fixtures/ctr_wrap.json, re-verified here) whose
+    // derived AES-CTR IV is within 64 blocks of a 2^32 wrap of its low word: a counter narrower than the
+    // specification's 128 bits diverges inside a 1 025-byte message
+    {
+        let ok = Command::new("python3").arg(verif_dir().join("spec/find_ctr_wrap.py")).arg("--verify").output().map(|o| o.status.success()).unwrap_or(false);
+        if !ok {
+            machinery_error("fixtures/ctr_wrap.json does not verify against the reference");
+        }
+        let txt = std::fs::read_to_string(verif_dir().join("fixtures/ctr_wrap.json")).unwrap_or_else(|_| machinery_error("missing fixtures/ctr_wrap.json"));
+        let fx: Value = serde_json::from_str(&txt).unwrap_or_else(|_| machinery_error("ctr_wrap.json is not JSON"));
+        let mut n = 0;
+        for (p, field) in [(Proto::V3L, "nonce"), (Proto::V1L, "seed")] {
+            let key = &domains::key_pool(p)[0];
+            for e in fx[p.name()].as_array().cloned().unwrap_or_default() {
+                let Some(seed) = e[field].as_str().and_then(b64::unhex) else { continue };
+                let lens: &[usize] = if p == Proto::V1L { &[1025] } else { &[1025, 4097, 65537] };
+                for len in lens {
+                    let case = IssueCase::new(p, Layer::Core, key, Some(&seed), &domains::message(*len, 0), &None, &None);
+                    all.executions += 1;
+                    n += 1;
+                    if let Out::Ok(token) = case.issue() {
+                        emitted.push(Emitted { case, key_ref: key.secret_for_ref.clone(), token });
+                    }
+                }
+            }
+        }
+        phases.push(json!({"phase": "AES-CTR counter-wrap seeds (v1.local, v3.local)", "executions": n}));
     }
 
     // hand the cases to R1
